@@ -86,7 +86,16 @@ def build_trace(rnd, tier, special: bool):
         return {"op": "advance"}
 
     n = rnd.randint(3, 6 if tier == "quick" else 8)
-    return {"kind": "history", "rseed": rnd.randrange(2**16), "prefill": rnd.randint(2, 4), "pack_limit": rnd.choice([3, 100]), "steps": [step() for _ in range(n)]}
+    steps = [step() for _ in range(n)]
+    if rnd.random() < 0.4:
+        # a flag set, cleared and set again on the same messages: in between its sequence is empty and its
+        # database row deleted (seeded/C11-3: a write-skipping cache that forgets the row is gone)
+        b, ss, f = rnd.randrange(3), sset(), rnd.choice([1, 3, 4, 0])
+        tog = [{"op": "store", "box": b, "set": ss, "flags": [f], "act": a} for a in (0, 1, 0)]
+        at = rnd.randrange(0, max(1, len(steps) - 1))
+        steps[at:at] = tog
+        steps = steps[: (8 if tier == "quick" else 11)]
+    return {"kind": "history", "rseed": rnd.randrange(2**16), "prefill": rnd.randint(2, 4), "pack_limit": rnd.choice([3, 100]), "steps": steps}
 
 
 def strategy(tier, shard, nshards):
